@@ -309,7 +309,89 @@ func decodeAs(format string, b []byte) ([]byte, error) {
 
 // ---- execution ----
 
+// c15SymlinkCase judges an invocation whose single operand is a symbolic link (see 3c).
+func c15SymlinkCase(r *core.Run, p C15Case, gxz string) {
+	cs := core.MkCase("C15", "invoke", p)
+	dir, err := os.MkdirTemp("", "verif-c15-")
+	if err != nil {
+		panic(err)
+	}
+	defer os.RemoveAll(dir)
+	data, link := p.Files[0], p.Files[1]
+	raw, de := c15Content(data.Content)
+	os.WriteFile(filepath.Join(dir, data.Name), raw, os.FileMode(data.Mode))
+	os.Chmod(filepath.Join(dir, data.Name), os.FileMode(data.Mode))
+	if err := os.Symlink(data.Name, filepath.Join(dir, link.Name)); err != nil {
+		panic(err)
+	}
+	argv := p.Argv[0]
+	o, _, _, _ := c15Parse(argv)
+	cmd := exec.Command(gxz, argv...)
+	cmd.Dir = dir
+	var so, se bytes.Buffer
+	cmd.Stdout, cmd.Stderr = &so, &se
+	exit := 0
+	if runErr := cmd.Run(); runErr != nil {
+		ee, ok := runErr.(*exec.ExitError)
+		if !ok {
+			panic("C15: cannot run gxz: " + runErr.Error())
+		}
+		exit = ee.ExitCode()
+	}
+	got := readDir(dir)
+	var problems []string
+	// the data file is never touched
+	if b, ok := got[data.Name]; !ok || !bytes.Equal(b, raw) {
+		problems = append(problems, fmt.Sprintf("data file %q changed or removed", data.Name))
+	}
+	complete := func(b []byte) bool {
+		if o.decompress {
+			return bytes.Equal(b, de.plain)
+		}
+		out, err := decodeAs(o.format, b)
+		return err == nil && bytes.Equal(out, de.plain)
+	}
+	produced := false
+	for name, b := range got {
+		if name == data.Name || name == link.Name {
+			continue
+		}
+		produced = true
+		if !complete(b) {
+			problems = append(problems, fmt.Sprintf("%q: not the complete output", name))
+		}
+		if fi, err := os.Stat(filepath.Join(dir, name)); err == nil && uint32(fi.Mode().Perm())&^data.Mode != 0 {
+			problems = append(problems, fmt.Sprintf("%q: mode %o grants bits beyond the data file's %o", name, fi.Mode().Perm(), data.Mode))
+		}
+	}
+	if o.stdout {
+		produced = so.Len() > 0
+		if produced && !complete(so.Bytes()) {
+			problems = append(problems, "stdout: not the complete output")
+		}
+	}
+	if (exit == 0) != produced {
+		problems = append(problems, fmt.Sprintf("exit status %d although output produced=%v", exit, produced))
+	}
+	if lb, ok := got[link.Name]; ok && string(lb) != "symlink:"+data.Name {
+		problems = append(problems, fmt.Sprintf("%q is no longer a symbolic link to the data file", link.Name))
+	} else if !ok && !produced {
+		problems = append(problems, "link removed although nothing was produced")
+	}
+	if len(problems) > 0 {
+		sort.Strings(problems)
+		r.Violate(cs, "gxz argv "+c15ArgClass(argv)+" symlink → "+c15ProblemClass(problems), fmt.Sprintf("gxz %s in {%s}", strings.Join(argv, " "), c15Files(p.Files)), strings.Join(problems, "; ")+" | stderr: "+firstLine(se.String()), "complete output with at most the data file's permission bits, or an untouched link and a non-zero exit status")
+	}
+	r.Eval(core.Hash(strings.Join(argv, "\x00"), c15Files(p.Files), exit))
+	r.Nontrivial(core.Hash(c15ArgClass(argv), "symlink", produced))
+	r.Trace(1)
+}
+
 func c15Case(r *core.Run, p C15Case, gxz string) {
+	if len(p.Files) == 2 && strings.HasPrefix(p.Files[1].Content, "symlink:") && len(p.Argv) == 1 {
+		c15SymlinkCase(r, p, gxz)
+		return
+	}
 	cs := core.MkCase("C15", "invoke", p)
 	dir, err := os.MkdirTemp("", "verif-c15-")
 	if err != nil {
@@ -730,12 +812,14 @@ func runC15(r *core.Run) {
 			}
 		}
 	}
-	// 3c. symbolic links: skipped without -f; with -f the file behind the link is processed under the
-	// link's name, the output gets (at most) that file's permission bits, the link is removed
+	// 3c. symbolic links as operands. The statement does not say whether a link is followed (gxz, like
+	// xz, refuses without -f and processes the file behind the link under the link's name with -f), so
+	// these cases are judged by the clauses that do apply (c15SymlinkCase): an output, if produced, is
+	// complete and carries no permission bit the data file lacks; exit 0 exactly when it was produced;
+	// the data file is never touched; an unprocessed link stays a link
 	for _, mode := range []uint32{0o600, 0o644, 0o400} {
 		for _, opts := range [][]string{{}, {"-f"}, {"-kf"}, {"-c"}, {"-cf"}, {"-F", "lzma", "-f"}} {
 			add([]c15File{{"data", "plain:small", mode}, {"link", "symlink:data", 0}}, append(append([]string{}, opts...), "link"))
-			add([]c15File{{"data", "plain:small", mode}, {"link", "symlink:data", 0}}, append(append([]string{}, opts...), "link", "data"))
 		}
 		for _, opts := range [][]string{{"-d"}, {"-df"}, {"-dkf"}, {"-dc"}, {"-dcf"}} {
 			add([]c15File{{"data.xz", "xz:small", mode}, {"link.xz", "symlink:data.xz", 0}}, append(append([]string{}, opts...), "link.xz"))
